@@ -14,6 +14,7 @@ output frame `n·r + D` with the TRUE delay `D` below; `output_delay()` reports 
   standard fact about the external FFT, assumed here and measured by the oracle.
 -/
 import RubatoProofs.Windows.Gain
+import RubatoProofs.Lemmas.FormulaTie
 import RubatoProofs.Windows.Symmetry
 import RubatoProofs.Lemmas.RatBridge
 import RubatoModel.Fft
@@ -140,4 +141,29 @@ theorem fft_delay_in_output_frames (fi fo ri ro : ℕ) (h : fi * ro = fo * ri) (
   field_simp
   linarith
 
+end Rubato.C14
+
+namespace Rubato.C14
+open Rubato Rubato.Gen
+
+/-- the reported-delay formula of the model is literally the one regenerated from the four `output_delay` bodies -/
+theorem reported_delay_is_the_sources {ρ σ : Type} [RNum ρ] [SNum ρ σ] (s : AState ρ σ) :
+    (s.L = Fast.polyLen → s.outputDelay = Formulas.fastIn_output_delay s.ratio ∧
+        s.outputDelay = Formulas.fastOut_output_delay s.ratio) ∧
+    s.outputDelay = Formulas.sincIn_output_delay s.L s.ratio ∧
+    s.outputDelay = Formulas.sincOut_output_delay s.L s.ratio :=
+  FormulaTie.output_delay σ s
+
+end Rubato.C14
+
+namespace Rubato.C14
+/-- … and each regenerated formula reads exactly the struct fields the model feeds it (guards against wrong-field slips) -/
+theorem formulas_read_the_expected_fields_C14 :
+    (Rubato.Gen.Formulas.formulaParams.map (·.1)).length = 24 ∧
+    Rubato.Gen.Formulas.formulaParams.lookup "fastIn_output_delay" = some ["resample_ratio"] ∧
+    Rubato.Gen.Formulas.formulaParams.lookup "fastOut_output_delay" = some ["resample_ratio"] ∧
+    Rubato.Gen.Formulas.formulaParams.lookup "sincIn_output_delay" = some ["sinc_len", "resample_ratio"] ∧
+    Rubato.Gen.Formulas.formulaParams.lookup "sincOut_output_delay" = some ["sinc_len", "resample_ratio"] := by
+  rw [Rubato.FormulaTie.formulas_read_the_expected_fields]
+  decide
 end Rubato.C14
